@@ -64,6 +64,13 @@ def menu(f, with_queries=False, full=True):
         if pair and pair[0] != pair[1]:
             add('slice', dims[pair[0]] >= 1 and dims[pair[1]] >= 1 and 'POINTS' not in dims,
                 sel=[[pair[0], ['l', [0, 0]]], [pair[1], ['l', [0, -1]]]])
+        if pair and pair[0] != pair[1]:
+            # index list on one axis and an integer on another axis of the same variable
+            add('slice', dims[pair[0]] >= 1 and dims[pair[1]] >= 1,
+                sel=[[pair[0], ['l', [0]]], [pair[1], ['i', 0]]])
+        if 'ROW' in dims and 'COL' in dims:
+            add('slice', dims['ROW'] >= 1 and dims['COL'] >= 1,
+                sel=[['ROW', ['l', [0, dims['ROW'] - 1]]], ['COL', ['i', 0]]])
         lens_ok = all(all(dims[x] >= 1 for x in vd) for vd, dt in vars_.values())
         for d in ([d0, dl] if d0 != dl else [d0]):
             num = _numeric_along(vars_, d)
@@ -88,6 +95,13 @@ def menu(f, with_queries=False, full=True):
         newd = next((n for n in ('rd1', 'rd2') if n not in dims), None)
         if newd:
             add('renameDimension', not conv, old=dn[0], new=newd)
+        if newd and len(dn) >= 2:
+            newd2 = 'rd2' if newd == 'rd1' and 'rd2' not in dims else None
+            if newd2:
+                add('renameDimensions2', not conv, old=[dn[0], dn[-1]], new=[newd, newd2])
+        # give an existing (possibly unlimited) dimension to the variables lacking it:
+        # outside the narrow documented domain, but the result must still be well-formed
+        add('insertDimension', False, name=dn[0], n=dims[dn[0]])
         if 'ins' not in dims:
             add('insertDimension', not conv, name='ins', n=2)
         if 'ins1' not in dims:
@@ -150,6 +164,8 @@ def do_op(f, op):
         return f.renameVariable(op['old'], op['new'])
     if name == 'renameDimension':
         return f.renameDimension(op['old'], op['new'])
+    if name == 'renameDimensions2':
+        return f.renameDimensions(**OrderedDict(zip(op['old'], op['new'])))
     if name == 'insertDimension':
         kw = {op['name']: op['n']}
         if op.get('before'):
